@@ -28,7 +28,7 @@ def run(ctx, focus='C11'):
     from lib_scorer.omen_scorer import OmenScorer
     from lib_guesser.omen.optimizer import Optimizer
     root = common.scratch_dir('rules')
-    for i in range(ctx.scale(25, 300)):
+    for i in range(ctx.scale(50, 300)):
         pws, ngram, mode, maxlen = ct.gen_training(rng)
         asize = rng.choice([100, 100, 2, 3])
         try:
